@@ -141,9 +141,11 @@ where
         forget(env0);
     }
     let present = inside[t];
-    let (ent, st) = any_entities(ids);
+    // the entities are all alive here: what a dead handle may do is C03's subject, and a
+    // concrete allocator keeps these (drop-glue heavy) queries within the quick budget
+    let (ent, es) = all_alive(ids);
     let env = Env::new(ent);
-    let (h, live) = any_handle(ids, &st, t);
+    let (h, live) = (es[t], true);
     let op = if ops.0 == ops.1 {
         ops.0
     } else {
@@ -322,9 +324,9 @@ pub fn drop_step_null(ids: [Index; NI], t: usize) {
         forget(s);
         forget(env0);
     }
-    let (ent, st) = any_entities(ids);
+    let (ent, es) = all_alive(ids);
     let env = Env::new(ent);
-    let (h, _live) = any_handle(ids, &st, t);
+    let h = es[t];
     let op = nd::below(5);
     {
         let mut s: St<'_, TNull> = Storage::new(env.fetch(), &mut masked);
